@@ -4,6 +4,7 @@ _COMMON_ASSUMPTIONS = [
     "a state is the operation history; every history is replayed on fresh objects and checked after its last operation, so a prefix is checked as its own (shorter) history",
     "a history that violated, or whose last operation is not enabled in the model state (e.g. copying from an empty slot, pointing a view at a destroyed source), is not extended",
     "a non-owning view is only read while the buffer it was pointed at still exists (a view whose source was replaced or destroyed is checked for size()/at() only)",
+    "at(i) is probed (i = size, size+1, SIZE_MAX must throw; every i < size must not) on the wrappers the last operation of the history involved; a wrapper it did not involve was probed in the shorter history ending with the operation that did, and still has its size(), data(), iteration and every element compared",
     "ASan is queried (__asan_region_is_poisoned) for the whole element range before the elements are read, so a dangling range is reported as a violation of that history instead of killing the shard; any other sanitizer abort is attributed to the history by vr::run_sharded",
 ]
 
@@ -11,21 +12,21 @@ UNITS_LOCAL = {"C11": [
     Unit("views", ["harness/C11_views.cpp"],
          flags=ASAN, env=ASAN_ENV, engine="seqmc", opt="-O1",
          budget={"quick": 100, "thorough": 1000},
-         rule="every history of length <= 4 (thorough 5) over 42 operations on two ArrayView<int> slots (construct from vector/array/pointer ranges/nullptr, make_ArrayView, reset(), reset(p,n), assign vector/array, copy-construct, copy-assign, write through the view, destroy), two heap source vectors (replace by a fresh buffer of 0/2/3/4 elements, write, destroy) and a std::array; the same with depth-1 for uint8_t and double. distinct = distinct (last operation, per-view size/null-ness/readability) observations",
+         rule="every history of length <= 4 (thorough 5) over 34 operations on two ArrayView<int> slots (construct from vector/array/pointer ranges/nullptr, make_ArrayView, reset(), reset(p,n), assign vector/array, copy-construct, copy-assign, write through the view, destroy), two heap source vectors (replace by a fresh buffer of 0/3/4 elements, write, destroy) and a std::array; the same with depth-1 for uint8_t and double. distinct = distinct (last operation, per-view size/null-ness/readability) observations",
          assumptions=_COMMON_ASSUMPTIONS),
     Unit("owned", ["harness/C11_owned.cpp"],
          flags=ASAN, env=ASAN_ENV, engine="seqmc", opt="-O1",
          budget={"quick": 100, "thorough": 1000},
-         rule="every history of length <= 4 (thorough 5) over the operations on two OwnedArray<int> slots (construct from vector/array/pointer ranges/nullptr, assign vector/array, reset(), reset(p,n), resize(n,val) for n in {0,1,3,9} incl. growth that reallocates, copy-construct, copy-assign, self-assign, write an element, destroy) and the source buffers (replace/write/destroy); depth-1 for uint8_t and double. Owning arrays are compared with the model after their source was written, replaced or destroyed and after the array they were copied from was destroyed/resized/written. distinct = distinct (last operation, per-array size/null-ness) observations",
+         rule="every history of length <= 4 (thorough 5) over 41 operations on two OwnedArray<int> slots (construct from vector/array/pointer ranges/nullptr, assign vector/array, reset(), reset(p,n), resize(n,val) for n in {0,1,3,9} incl. growth that reallocates, copy-construct, copy-assign, self-assign, write an element, destroy) and the source buffers (replace/write/destroy); depth-1 for uint8_t and double. Owning arrays are compared with the model after their source was written, replaced or destroyed and after the array they were copied from was destroyed/resized/written. distinct = distinct (last operation, per-array size/null-ness) observations",
          assumptions=_COMMON_ASSUMPTIONS),
     Unit("fixed", ["harness/C11_fixed.cpp"],
          flags=ASAN, env=ASAN_ENV, engine="seqmc", opt="-O1",
          budget={"quick": 100, "thorough": 1000},
-         rule="every history of length <= 4 (thorough 5) over the operations on two shared_ptr<FixedArray<int>> handles (default/size/pointer incl. null/vector incl. empty/array constructors, assign vector/array, copy-construct, copy-assign, write an element, drop the handle), two FixedArrayView<int> slots ((offset,size) sub-ranges (0,size),(1,size-1),(size,0) of either array, copy, write through the view, destroy) and the source buffers; depth-1 for uint8_t and double. A view is read after the handle it was made from was dropped and after its FixedArray was re-assigned (the class comment promises it keeps the data alive). distinct = distinct (last operation, per-wrapper size/null-ness) observations",
+         rule="every history of length <= 4 (thorough 5) over 45 operations on two shared_ptr<FixedArray<int>> handles (default/size/pointer incl. null/vector incl. empty/array constructors, assign vector/array, copy-construct, copy-assign, write an element, drop the handle), two FixedArrayView<int> slots ((offset,size) sub-ranges (0,size),(1,size-1),(size,0) of either array, copy, write through the view, destroy) and the source buffers; depth-1 for uint8_t and double. A view is read after the handle it was made from was dropped and after its FixedArray was re-assigned (the class comment promises it keeps the data alive); an element is not written while two different FixedArray objects share the buffer (whether a copy sees later writes is not specified). distinct = distinct (last operation, per-wrapper size/null-ness) observations",
          assumptions=_COMMON_ASSUMPTIONS + ["elements of a FixedArray(size) are uninitialised: they are read (for ASan) but not compared until written"]),
     Unit("dataview", ["harness/C11_dataview.cpp"],
          flags=ASAN, env=ASAN_ENV, engine="seqmc", opt="-O1",
          budget={"quick": 60, "thorough": 300},
-         rule="DataView<T> for T of size 1/2/4/8 (uint8_t, uint16_t, float, double, and a 12-byte struct of 4-byte alignment): every history of length <= 3 (thorough 4) over {default construct, construct(data,stride), construct(data) with the default stride, reset(data,stride), reset(data)} x 2 buffers x base offsets {0, alignment} x strides {every multiple of the alignment up to 3*sizeof(T); every stride 0..4 for 1-byte elements}; after the last operation operator[](i) for i in 0..3 must return a reference to exactly byte offset i*stride (address and value); each buffer is a heap block of exactly offset+3*stride+sizeof(T) bytes so ASan sees any access outside it. distinct = distinct (last operation, stride, offset, element size) observations",
+         rule="DataView<T> for T of size 1/2/4/8 and 12 (uint8_t, uint16_t, float, double, a 12-byte struct of 4-byte alignment): every history of length <= 3 (thorough 4) over {default construct, construct(data,stride), construct(data) with the default stride, reset(data,stride), reset(data), free a block} x 2 heap blocks x base offsets {0, alignof(T)} x strides {0, alignof(T), sizeof(T), sizeof(T)+alignof(T), 2*sizeof(T), 3*sizeof(T)} (every stride 0..4 for 1-byte elements), 43-59 operations per type; after the last operation operator[](i) for i in 0..3 must return a reference to exactly byte offset i*stride (address, and value compared with the model's copy of the bytes); each block is a heap allocation of exactly offset+3*stride+sizeof(T) bytes so ASan sees any access outside it. distinct = distinct (last operation kind, offset, stride, element size) observations",
          assumptions=["strides are multiples of alignof(T) and bases are aligned (anything else is undefined behaviour in the caller)"]),
 ]}
